@@ -35,6 +35,29 @@ def handleApi : Handler := fun st op args =>
   -- `MinimaxAI.Evaluate` with the default weights: the value of `ai.MakeEvaluator(size, nil)` (C18's `eval`), whatever the
   -- engine was asked before
   | "evalmm", [ptok] => some (st, withPos ptok fun p => fmtRInt (evaluateDefault p.c p))
+  -- storage is invisible in the model (C09): `movepre2` is `move` of the good move, `overstack` the verdict of the
+  -- position after m1, m2
+  | "movepre2", [ptok, _mfail, mtok, _dirt] =>
+    some (st, withPos ptok fun p =>
+      match parseMove mtok with
+      | none => "bad-move"
+      | some m =>
+        match p.apply st.basis m with
+        | .ok q => "ok " ++ fmtPos q
+        | .error e => fmtErr e)
+  | "overstack", [ptok, m1, m2, _m3] =>
+    some (st, withPos ptok fun p =>
+      match parseMove m1, parseMove m2 with
+      | some a, some b =>
+        match p.apply st.basis a with
+        | .error e => fmtErr e
+        | .ok q =>
+          match q.apply st.basis b with
+          | .error e => fmtErr e
+          | .ok r =>
+            let d := r.winDetails
+            fmtOutcome d.over d.winner (d.reason == .road) d.whiteFlats d.blackFlats ++ " " ++ accStr r
+      | _, _ => "bad-move")
   | "api.flood", [n, w, s] =>
     match n.toNat?, w.toNat?, s.toNat? with
     | some n, some w, some s =>
